@@ -271,6 +271,18 @@ impl<'a> Gen<'a> {
                 _ => Some(Binary::from(format!("d{}", tag).into_bytes())),
             };
         }
+        // now and then a response of unusual size: well over a hundred attributes, or dozens of plain messages
+        if self.pct(1) {
+            for i in 0..self.rng.range(129, 140) {
+                s.attrs.push((format!("k{}", i), "v".into()));
+            }
+        }
+        if self.pct(1) && depth_left > 0 {
+            let to = self.users[2].clone();
+            for i in 0..self.rng.range(33, 70) {
+                s.msgs.push(Sub { id: i, mode: RMode::Never, payload: Payload::Raw(Binary::default()), msg: Msg::BankSend { to: to.clone(), coins: vec![coin(1, "ua")] } });
+            }
+        }
         if depth_left > 0 && self.nodes_left > 0 {
             let n = self.rng.below(self.p.fanout + 1);
             for _ in 0..n {
